@@ -1062,10 +1062,70 @@ def opBody (guard : Bool) (σ : State) (t : Loc) : Op → Except Err State
   | .extend _ q => opExtend guard σ t q
   | _ => .error .badarg
 
+/-- root k = `new Var(q.clone())`, then the old root is destroyed -/
+def opClone (σ : State) (k : Nat) (q : Path) : Except Err State :=
+  match cget σ q with
+  | .error e => .error e
+  | .ok src =>
+    match cloneV (travFuel σ.heap) σ.heap src with
+    | .error e => .error e
+    | .ok (h1, c) => replaceSlot { σ with heap := h1 } k c
+
+/-- root k = `new Var(q)` -/
+def opCopy (σ : State) (k : Nat) (q : Path) : Except Err State :=
+  match cget σ q with
+  | .error e => .error e
+  | .ok src =>
+    match copyV σ.heap src with
+    | .error e => .error e
+    | .ok h1 => replaceSlot { σ with heap := h1 } k src
+
+/-- root k = `new Var(Var::Type)` -/
+def opCtorType (σ : State) (k : Nat) (ty : Nat) : Except Err State :=
+  match mkType σ.heap ty with
+  | .error e => .error e
+  | .ok (h1, v) => replaceSlot { σ with heap := h1 } k v
+
+/-- root k = `new Var(key, q)`: `Var(const String& k, const Var& x)`: NEW_DIC; set(k, x) -/
+def opCtorKV (σ : State) (k : Nat) (key : Bytes) (q : Path) : Except Err State :=
+  match cget σ q with
+  | .error e => .error e
+  | .ok src =>
+    match copyV σ.heap src with
+    | .error e => .error e
+    | .ok h1 =>
+      let (h2, id) := allocB h1 { emptyBlock true with items := [(key, src)] }
+      replaceSlot { σ with heap := h2 } k (.obj id)
+
+/-- the statements on root variables -/
+def rootOp (σ : State) : Op → Except Err State
+  | .clone k q => opClone σ k q
+  | .copy k q => opCopy σ k q
+  | .drop k => replaceSlot σ k V.none
+  | .ctorLit k l => replaceSlot σ k l.toV
+  | .ctorType k ty => opCtorType σ k ty
+  | .ctorKV k key q => opCtorKV σ k key q
+  | _ => .error .badarg
+
+/-- the mutable path a statement starts with -/
+def targetOf : Op → Option Path
+  | .setLit p _ => some p
+  | .setType p _ => some p
+  | .setV p _ => some p
+  | .app p _ => some p
+  | .appLit p _ => some p
+  | .resize p _ => some p
+  | .removeAt p _ _ => some p
+  | .removeKey p _ => some p
+  | .clear p => some p
+  | .extend p _ => some p
+  | _ => none
+
 /-- one statement of a history.  The state is returned also when the statement is refused: the steps of the
 target path evaluated before the refusal have taken effect (in the C++ as well). -/
 def applyOp (guard : Bool) (σ : State) (op : Op) : State × Except Err Unit :=
-  let onTarget (p : Path) : State × Except Err Unit :=
+  match targetOf op with
+  | some p =>
     if p.root < σ.slots.length then
       match resolveMut guard σ (.slot p.root) p.steps with
       | (σ1, .error e) => (σ1, .error e)
@@ -1074,40 +1134,10 @@ def applyOp (guard : Bool) (σ : State) (op : Op) : State × Except Err Unit :=
         | .ok σ2 => (σ2, .ok ())
         | .error e => (σ1, .error e)
     else (σ, .error .badarg)
-  let onRoot (r : Except Err State) : State × Except Err Unit :=
-    match r with
+  | none =>
+    match rootOp σ op with
     | .ok σ1 => (σ1, .ok ())
     | .error e => (σ, .error e)
-  match op with
-  | .setLit p _ => onTarget p
-  | .setType p _ => onTarget p
-  | .setV p _ => onTarget p
-  | .app p _ => onTarget p
-  | .appLit p _ => onTarget p
-  | .resize p _ => onTarget p
-  | .removeAt p _ _ => onTarget p
-  | .removeKey p _ => onTarget p
-  | .clear p => onTarget p
-  | .extend p _ => onTarget p
-  | .clone k q => onRoot (do
-      let src ← cget σ q
-      let (h1, c) ← cloneV (travFuel σ.heap) σ.heap src
-      replaceSlot { σ with heap := h1 } k c)
-  | .copy k q => onRoot (do
-      let src ← cget σ q
-      let h1 ← copyV σ.heap src
-      replaceSlot { σ with heap := h1 } k src)
-  | .drop k => onRoot (replaceSlot σ k V.none)
-  | .ctorLit k l => onRoot (replaceSlot σ k l.toV)
-  | .ctorType k ty => onRoot (do
-      let (h1, v) ← mkType σ.heap ty
-      replaceSlot { σ with heap := h1 } k v)
-  | .ctorKV k key q => onRoot (do
-      -- Var(const String& k, const Var& x): NEW_DIC; set(k, x)
-      let src ← cget σ q
-      let h1 ← copyV σ.heap src
-      let (h2, id) := allocB h1 { emptyBlock true with items := [(key, src)] }
-      replaceSlot { σ with heap := h2 } k (.obj id))
 
 /-- a whole history from a state -/
 def run (guard : Bool) : State → List Op → State
